@@ -70,15 +70,14 @@ func notPlain(v any, path string, seen map[uintptr]bool, depth int) string {
 	return fmt.Sprintf("%s: engine-internal value of type %T", path, v)
 }
 
-func determined(q Node) bool {
-	// the sequence is fixed unless grouping / a join is involved and ORDER BY does not impose a total order
-	fs := Features(q)
-	for _, f := range fs {
-		if len(f) > 5 && f[:5] == "join:" {
-			return false
+// groupingOrJoin: is grouping (GROUP BY, an aggregate) or a join involved anywhere in the query?
+func groupingOrJoin(q Node) bool {
+	for _, f := range Features(q) {
+		if strings.HasPrefix(f, "join:") || strings.HasPrefix(f, "agg:") || f == "groupby" {
+			return true
 		}
 	}
-	return true
+	return false
 }
 
 // C12: plain data (reflection walk, JSON round trip, no "<-"), and a second evaluation on an
@@ -120,6 +119,13 @@ func checkC12(c Node) Verdict {
 	v.Nontrivial = len(out.Rows) > 0
 	// second and third evaluation on equal inputs (fresh documents, fresh queries)
 	reps := 2
+	totalOrder := q["k"] == "select" && len(seq(q["order"])) > 0 && !ties
+	if ties {
+		reps = 5 // an order that varies between evaluations shows in the tied rows only
+	}
+	if strings.HasPrefix(c["fam"].(string), "joinnull") {
+		reps = 8 // what NULL keys meet may depend on map iteration order
+	}
 	for _, f := range sig {
 		if f == "qual:async" || f == "qual:spinasync" {
 			reps = 8 // goroutine interleavings differ from run to run
@@ -133,15 +139,24 @@ func checkC12(c Node) Verdict {
 			return fail("nondet", sql, sig, "the first evaluation succeeded, a repetition on an equal input: %s", out2.Describe())
 		}
 		// two real results: compared through their canonical renderings (numbers by value)
+		// the identical sequence whenever ORDER BY determines a total order or no grouping / join is involved;
+		// the equal multiset otherwise
 		same := Canon(any(out2.Rows)) == Canon(any(out.Rows))
-		if !same && (ties || !determined(q)) {
+		if !same && !totalOrder && groupingOrJoin(q) {
 			same = canonBag(out2.Rows) == canonBag(out.Rows)
 		}
 		if !same {
 			return fail("nondet", sql, sig, "repetition on an equal input: first %s, then %s", Canon(any(out.Rows)), Canon(any(out2.Rows)))
 		}
 	}
-	if !wantErr && c["res"].(Node)["t"] != "any" {
+	cut := false // a window that cuts through tied rows: which of them it keeps is not specified
+	if ties && q["k"] == "select" {
+		cut = num(q["limit"]) >= 0 || num(q["offset"]) >= 0
+	}
+	if strings.HasPrefix(c["fam"].(string), "joinnull") {
+		cut = true // which rows a NULL / missing key joins is claimed nowhere
+	}
+	if !wantErr && !cut && c["res"].(Node)["t"] != "any" {
 		ok := Equal(any(out.Rows), any(want))
 		if ties {
 			ok = BagEqual(out.Rows, want)
